@@ -22,6 +22,7 @@ type Node struct {
 	Chain    []*chain.Entry // reference chain currently stored (index = block number)
 	Reverted []*chain.Entry // blocks that were stored and later reverted (for "reverted hash" queries)
 	Path     []string       // op labels from the empty node
+	Ops      []*chain.Entry // the same history as entries: a stored block, or nil for a revert
 	Key      string
 }
 
@@ -127,7 +128,7 @@ func Explore(cfg Config) Stats {
 					continue
 				}
 				c := &Node{DB: d, Chain: append(append([]*chain.Entry{}, p.Chain...), e), Reverted: p.Reverted,
-					Path: append(append([]string{}, p.Path...), "store:"+nm.Name)}
+					Path: append(append([]string{}, p.Path...), "store:"+nm.Name), Ops: append(append([]*chain.Entry{}, p.Ops...), e)}
 				c.Key = chain.ImageHash(d)
 				if cfg.OnStore != nil {
 					cfg.OnStore(p, c, nm)
@@ -146,7 +147,7 @@ func Explore(cfg Config) Stats {
 				} else {
 					c := &Node{DB: d, Chain: append([]*chain.Entry{}, p.Chain[:len(p.Chain)-1]...),
 						Reverted: append(append([]*chain.Entry{}, p.Reverted...), p.Head()),
-						Path:     append(append([]string{}, p.Path...), "revert")}
+						Path:     append(append([]string{}, p.Path...), "revert"), Ops: append(append([]*chain.Entry{}, p.Ops...), nil)}
 					c.Key = chain.ImageHash(d)
 					if cfg.OnRevert != nil {
 						cfg.OnRevert(p, c)
@@ -198,6 +199,32 @@ func (n *Node) Exotic() string {
 }
 
 func LastOp(n *Node) string { return lastOp(n) }
+
+// ReplayLongLived re-executes the node's whole history on ONE long-lived Blockchain over a fresh store (no restart
+// between operations), so that in-memory caches of the node live across stores and reverts.
+func (n *Node) ReplayLongLived(newState bool) (*blockchain.Blockchain, *memory.Database, error) {
+	d := memory.New()
+	bc := chain.NewNode(d, newState)
+	var stack []*chain.Entry
+	for i, e := range n.Ops {
+		if e == nil {
+			if err := bc.RevertHead(); err != nil {
+				return nil, nil, fmt.Errorf("op %d revert: %w", i, err)
+			}
+			stack = stack[:len(stack)-1]
+			continue
+		}
+		var parent *chain.Entry
+		if len(stack) > 0 {
+			parent = stack[len(stack)-1]
+		}
+		if err := chain.StoreSync(bc, e.Fresh(parent)); err != nil {
+			return nil, nil, fmt.Errorf("op %d store: %w", i, err)
+		}
+		stack = append(stack, e)
+	}
+	return bc, d, nil
+}
 
 func lastOp(n *Node) string {
 	if len(n.Path) == 0 {
